@@ -539,6 +539,9 @@ class Executor:
         m = re.fullmatch(r"([\w:<>]+)::(\w+)", s)
         if m and self.ti.variants(m.group(1)) and m.group(2) in self.ti.variants(m.group(1)):
             return Agg("adt", head_of(m.group(1)), m.group(2), [])
+        m = re.match(r"ZeroSized: (\{closure@[^}]*\})", s)
+        if m:
+            return Agg("closure", m.group(1), None, [])
         v = self.eval_const(s)
         if v is not None:
             return v
@@ -778,6 +781,8 @@ class Executor:
             return ("model", norm)
         if re.match(r"^Iterator::\w+::next$", norm):
             return ("model", "Iterator::Iter::next")
+        if re.match(r"^Iterator::\w+::(rev|cloned|copied|enumerate)$", norm):
+            return ("model", "Iterator::adaptor::" + norm.rsplit("::", 1)[1])
         if re.match(r"^IntoIterator::\w+::into_iter$", norm) or re.match(r"^\w+::(iter|iter_mut)$", norm):
             return ("model", "IntoIterator::slice::into_iter")
         tail = norm.split("::")[-1]
@@ -992,6 +997,8 @@ class Executor:
         fr = Frame(state.next_fid, fn, dest, ret_block)
         state.next_fid += 1
         for (n, ty), v in zip(fn.params, args):
+            if isinstance(v, Sym) and v.ty is None and ty and "{closure" not in ty and "impl " not in ty:
+                v = Sym(v.path, ty)
             fr.locals[n] = v
         state.frames.append(fr)
 
@@ -1388,6 +1395,24 @@ def m_quote_into_iter(ex, state, frame, dest, args, ret_block, work, callee):
     else:
         it = IterL([])
     return _ret(ex, state, frame, dest, Agg("tuple", None, None, [it, Opaque(("HasIterator",), None)]), ret_block)
+
+
+@model("Iterator::adaptor::rev", "Iterator::adaptor::cloned", "Iterator::adaptor::copied", "Iterator::adaptor::enumerate")
+def m_iter_adaptor(ex, state, frame, dest, args, ret_block, work, callee):
+    it = _val(ex, state, args[0])
+    which = normalize_callee(callee).rsplit("::", 1)[1]
+    if which in ("cloned", "copied"):
+        return _ret(ex, state, frame, dest, it, ret_block)
+    if which == "rev":
+        if isinstance(it, IterL):
+            return _ret(ex, state, frame, dest, IterL(list(reversed(it.items[it.idx:]))), ret_block)
+        raise Inconclusive("rev() of a symbolic iterator")
+    if which == "enumerate":
+        if isinstance(it, IterL):
+            return _ret(ex, state, frame, dest, IterL([Agg("tuple", None, None, [i, x]) for i, x in enumerate(it.items[it.idx:])]), ret_block)
+        if isinstance(it, IterS):
+            return _ret(ex, state, frame, dest, IterS(it.base, it.idx, True), ret_block)
+    raise Inconclusive("iterator adaptor %s on %r" % (which, it))
 
 
 @model("HashMap::get")
